@@ -34,6 +34,7 @@ func checkC07(r *Report, p *Program) {
 		return strings.HasSuffix(file, "composite/controller_revision.go") || strings.HasSuffix(file, "composite/rolling_update.go") || strings.HasSuffix(file, "controllerref/controller_revision.go")
 	})
 	r07_9(r, p)
+	objectMapContracts(r, p, "R07.10")
 }
 
 // r07_9: which fields are revisioned. The default (all of spec) applies whenever the
